@@ -203,8 +203,10 @@ def main(argv=None):
             by_id[o["id"]] = o
     obligations = list(by_id.values())
 
+    cur_hashes = source_hashes(repo)
     if a.update_lock:
         lock_all[prop] = {o["id"]: o["status"] for o in obligations}
+        lock_all.setdefault("_source_hashes", {})[prop] = cur_hashes
         with open("obligations.lock.json", "w") as fh:
             json.dump(lock_all, fh, indent=1, sort_keys=True)
         print(f"lock updated: {len(obligations)} obligations for {prop}")
@@ -220,6 +222,23 @@ def main(argv=None):
         if any(fn.split("::")[-1] in m and fn.split("::")[0].split("/")[-1] in m for m in missing_fn_prefixes):
             continue
         really_missing.append(oid)
+    # A locked obligation that is not generated is a vacuity error of the harness (exit 3) only when the source it belongs to is
+    # the source the lock was taken from.  When that file changed (functions renamed, split, merged), the contract no longer
+    # lines up with the code: the obligation is `unknown` and goes to the native replayer like any other undecided one.
+    locked_hashes = lock_all.get("_source_hashes", {}).get(prop)
+    if locked_hashes is not None and really_missing:
+        changed = {b for b in set(cur_hashes) | set(locked_hashes) if cur_hashes.get(b) != locked_hashes.get(b)}
+        still = []
+        for oid in really_missing:
+            base = oid.split("/", 1)[1].split("::")[0] if "/" in oid else ""
+            drift = (base in changed) if base.endswith(".py") else bool(changed)
+            if drift:
+                obligations.append({"id": oid, "kind": "drift", "status": "unknown", "vcs": 0, "seconds": 0.0, "backends": {}, "witness": None,
+                                    "reason": f"locked obligation not generated; source changed since the lock ({', '.join(sorted(changed))[:120]})",
+                                    "function": "", "loc": base})
+            else:
+                still.append(oid)
+        really_missing = still
 
     violations = []
     known_lines = []
@@ -373,6 +392,21 @@ def main(argv=None):
           f"refuted-new={len(new_violations)} undecided={len(undecided)} functions={len(fn_infos)} "
           f"solver={solver_seconds}s wall={wall:.1f}s exit={exit_code}")
     return exit_code
+
+
+def source_hashes(repo):
+    """{file basename: sha1 of the AST dumps of the package files with that basename} -- used to tell harness vacuity from code drift."""
+    import ast as _ast
+    import hashlib
+    acc = {}
+    for rel in sorted(loader.all_package_files(repo)):
+        try:
+            src = open(os.path.join(repo or loader.REPO, rel), encoding="utf-8").read()
+            d = _ast.dump(_ast.parse(src))
+        except Exception as e:  # noqa
+            d = f"unparsable: {e}"
+        acc.setdefault(os.path.basename(rel), hashlib.sha1()).update(d.encode())
+    return {k: v.hexdigest() for k, v in acc.items()}
 
 
 def do_replay(prop, o, repo):
